@@ -3,6 +3,13 @@ import NavisModel.Proofs.ResampleGeomLemmas
 import NavisModel.Proofs.ResampleRealLemmas
 import NavisModel.Proofs.DownsampleLemmas
 import NavisModel.Proofs.BranchingLemmas
+import NavisModel.Proofs.SamplingLemmas
+import NavisModel.Proofs.SamplingGeomLemmas
+import NavisModel.Proofs.SamplingStructLemmas
+import NavisModel.Proofs.ResampleNormedLemmas
+import NavisModel.Proofs.ResampleBranchLemmas
+import NavisModel.Proofs.ResampleEuclidLemmas
+import NavisModel.Gen.Sampling
 import NavisModel.Props.C01
 /-!
 # C13 — down- and resampling preserve branching structure and geometry
@@ -350,6 +357,353 @@ theorem nearest_is_argmin (nodes : List (Int × Pt)) (q : Pt) :
     ∀ i, nearest nodes q = some i → ∃ n ∈ nodes, n.1 = i ∧ ∀ n' ∈ nodes, sqd n.2 q ≤ sqd n'.2 q :=
   ⟨nearest_isSome q, fun _ h => nearest_spec h⟩
 
+
+/-! # Second pass
+
+`Model/Sampling.lean` restates `_downsample_treeneuron` and the segment loop / re-attachment of `resample_skeleton`
+*as written*, with every operator, constant and def-before-use decision as a parameter; `Gen/Sampling.lean` is
+re-extracted from the navis source on every run (`translator/gen_sampling.py`).  The theorems of section 1 build the
+rules from the extracted facts and prove that the as-written code with those rules **is** the hand-written model the
+theorems above are about — an edit of one of the facts makes a theorem stop checking.  Sections 2–5 add the clauses the
+first pass had only tested or stated in a weaker form. -/
+open Navis.Sampling
+
+/-! ## 1. The facts of the current source are what the model hard-wires -/
+
+def labelOfName : String → Option Label
+  | "slab" => some .slab | "root" => some .root | "end" => some .end_ | "branch" => some .branch | _ => none
+
+/-- The walk rule read off `_downsample_treeneuron`; `none` when the code no longer has the shape the model assumes
+(a two-way `or` of a membership test and a root test, `while True`, the scan stepping after the test, …). -/
+def genWalkRule : Option WalkRule := do
+  let smallCmp ← Cmp.ofName Gen.Sampling.smallGuardCmp
+  let fixCmp ← Cmp.ofName Gen.Sampling.fixCmp
+  let fixType ← labelOfName Gen.Sampling.fixType
+  let contCmp ← Cmp.ofName Gen.Sampling.contCmp
+  let loopCmp ← Cmp.ofName Gen.Sampling.loopCmp
+  let stopRootCmp ← Cmp.ofName Gen.Sampling.stopRootCmp
+  if Gen.Sampling.smallGuardAxis = 0 ∧ Gen.Sampling.parentMapKey = "node_id" ∧ Gen.Sampling.parentMapValue = "parent_id"
+      ∧ Gen.Sampling.fixColumn = "type" ∧ Gen.Sampling.presOp = "BitOr" ∧ Gen.Sampling.presColumn = "node_id"
+      ∧ Gen.Sampling.presArgIsPreserveNodes = true ∧ Gen.Sampling.fixIdColumn = "node_id"
+      ∧ Gen.Sampling.somaAppendsToFix = true ∧ Gen.Sampling.stopSetFromFix = true ∧ Gen.Sampling.startsFromFix = true
+      ∧ Gen.Sampling.outerWhileTrue = true ∧ Gen.Sampling.rootBreaks = true ∧ Gen.Sampling.loopRhsIsFactor = true
+      ∧ Gen.Sampling.loopStepOp = "Add" ∧ Gen.Sampling.stopBool = "Or" ∧ Gen.Sampling.stopMemLhsIsCand = true
+      ∧ Gen.Sampling.stopRootLhsIsCand = true ∧ Gen.Sampling.stopRecords = true ∧ Gen.Sampling.stopBreaks = true
+      ∧ Gen.Sampling.stepAfterStopTest = true ∧ Gen.Sampling.stoppedBreaksOuter = true
+      ∧ Gen.Sampling.exhaustedRecordsAndMoves = true ∧ Gen.Sampling.flagResetEachRound = true
+      ∧ Gen.Sampling.keepColumn = "node_id" ∧ Gen.Sampling.keepUsesKeys = true ∧ Gen.Sampling.mapColumn = "node_id"
+      ∧ Gen.Sampling.mapTarget = "parent_id" then
+    pure { smallCmp := smallCmp, smallK := Gen.Sampling.smallGuardK, sentinelKey := Gen.Sampling.sentinelKey,
+           sentinelValue := Gen.Sampling.sentinelValue, fixCmp := fixCmp, fixType := fixType,
+           presUnion := Gen.Sampling.presKeepsSelection, stopSetHasSoma := Gen.Sampling.stopSetHasSoma,
+           startsHaveSoma := Gen.Sampling.startsHaveSoma, contCmp := contCmp, contK := Gen.Sampling.contK,
+           rootRecord := Gen.Sampling.rootRecord, loopInit := Gen.Sampling.loopInit, loopCmp := loopCmp,
+           loopStep := Gen.Sampling.loopStep, stopMem := Gen.Sampling.stopMemOp == "In", stopRootCmp := stopRootCmp,
+           stopRootK := Gen.Sampling.stopRootK }
+  else none
+
+/-- The extracted walk rule is the one the model hard-wires: fix points are the rows whose type is not `slab`,
+preserved ids are OR-ed in, the soma ids reach both the start list and the membership test of the walk, the scan runs
+`i = 0; while i < factor; i += 1`, stops on `new_p in fix or new_p < 0` and continues while `new_p >= 0`. -/
+theorem gen_walk_rule : genWalkRule = some walkRule0 := by decide
+
+/-- **`_downsample_treeneuron` as written today is the model `downsample`** — for every well-formed table, every
+factor (`none` = inf; a float `q` acts as `⌈q⌉`), `preserve_nodes` given or `None`, and every soma list: the soma ids
+are fix points of the walk exactly like preserved ids. -/
+theorem gen_downsample_is_model (t : Table) (hw : WF t) (q : Option Rat) (pres : Option (List Int)) (soma : List Int)
+    (hs : ∀ s ∈ soma, s ∈ ids t) :
+    genWalkRule.map (fun r => downsampleG r t q pres soma) = some (downsample t (q.map ceilNat) (pres.getD [] ++ soma)) := by
+  rw [gen_walk_rule, Option.map_some, downsampleG_rule0 hw q pres soma hs]
+
+/-- Hence the code as written satisfies the whole downsampling clause list, with the soma and the preserved nodes among
+the fix points and at most `⌈factor⌉` nodes dropped between a kept node and its new parent. -/
+theorem gen_downsample_satisfies_spec (t : Table) (hw : WF t) (hl : labelsOKB t = true) (q : Option Rat)
+    (pres : Option (List Int)) (soma : List Int) (hs : ∀ s ∈ soma, s ∈ ids t) (fix : List Int)
+    (hfix : ∀ i ∈ fix, ∃ n ∈ t, n.id = i ∧ (n.label ≠ .slab ∨ i ∈ pres.getD [] ∨ i ∈ soma)) :
+    ∀ r, genWalkRule = some r → DsSpec t (downsampleG r t q pres soma) (q.map ceilNat) fix := by
+  intro r hr
+  rw [gen_walk_rule] at hr
+  cases hr
+  rw [downsampleG_rule0 hw q pres soma hs]
+  apply downsample_satisfies_spec t hw hl _ _ fix
+  intro i hi
+  obtain ⟨n, hn, hid, hc⟩ := hfix i hi
+  refine ⟨n, hn, hid, ?_⟩
+  rcases hc with h | h | h
+  · exact Or.inl h
+  · exact Or.inr (List.mem_append_left _ h)
+  · exact Or.inr (List.mem_append_right _ h)
+
+/-- `downsample_neuron`: factors `<= 1` are rejected, the input is copied unless `inplace`, skeletons go to
+`_downsample_treeneuron` with the factor and `preserve_nodes` forwarded, the (copied) neuron is returned; the other
+neuron types have their own branches (the C13 statement is about skeletons only). -/
+theorem gen_downsample_entry :
+    Cmp.ofName Gen.Sampling.factorGuardCmp = some .le ∧ Gen.Sampling.factorGuardK = 1
+    ∧ Gen.Sampling.dsCopiesUnlessInplace = true ∧ Gen.Sampling.dsReturnsX = true
+    ∧ ("TreeNeuron", "_downsample_treeneuron") ∈ Gen.Sampling.dsDispatch
+    ∧ Gen.Sampling.dsDispatch.map (·.1) = ["TreeNeuron", "Dotprops", "VoxelNeuron", "MeshNeuron"]
+    ∧ Gen.Sampling.dsTreeArgs = ["downsampling_factor=downsampling_factor", "preserve_nodes=preserve_nodes"]
+    ∧ ("inplace", "False") ∈ Gen.Sampling.dsDefaults ∧ ("preserve_nodes", "None") ∈ Gen.Sampling.dsDefaults
+    ∧ "map_neuronlist" ∈ Gen.Sampling.dsDecorators ∧ Gen.Sampling.dsClearsCache = true
+    ∧ Gen.Sampling.somaGuard = "not isinstance(X.soma, type(None))" := by decide
+
+/-- With the extracted guard the entry point raises exactly for factors `≤ 1` (and never for `inf`). -/
+theorem gen_factor_guard (r : WalkRule) (t : Table) (q : Option Rat) (pres : Option (List Int)) (soma : List Int) :
+    (Cmp.ofName Gen.Sampling.factorGuardCmp).map (fun c => downsampleNeuronG c Gen.Sampling.factorGuardK r t q pres soma) =
+      some (match q with
+        | some f => if f ≤ 1 then none else some (downsampleG r t q pres soma)
+        | none => some (downsampleG r t q pres soma)) := by
+  have h1 : Cmp.ofName Gen.Sampling.factorGuardCmp = some .le := by decide
+  have h2 : Gen.Sampling.factorGuardK = 1 := by decide
+  rw [h1, h2, Option.map_some]
+  unfold downsampleNeuronG
+  cases q with
+  | none => simp
+  | some f => by_cases h : f ≤ 1 <;> simp [Cmp.evalRat, h]
+
+/-- The segment-loop rule read off `resample_skeleton`. -/
+def genResRule : Option ResRule := do
+  let shortCmp ← Cmp.ofName Gen.Sampling.shortCmp
+  let countFn ← CountFn.ofName Gen.Sampling.countFn
+  let zipA ← Gen.Sampling.rowsZip[0]?
+  let zipB ← Gen.Sampling.rowsZip[1]?
+  let c0 ← Gen.Sampling.collapseIdx[0]?
+  let c1 ← Gen.Sampling.collapseIdx[1]?
+  if Gen.Sampling.rsLoopOver = "small_segments" ∧ Gen.Sampling.idBaseColumn = "node_id" ∧ Gen.Sampling.shortLhs = "dist[-1]"
+      ∧ Gen.Sampling.shortRhsIsRes = true ∧ Gen.Sampling.countOp = "Div" ∧ Gen.Sampling.countLhs = "dist[-1]"
+      ∧ Gen.Sampling.countRhsIsRes = true ∧ Gen.Sampling.linspaceArgs = ["dist[0]", "dist[-1]", "int(n)"]
+      ∧ Gen.Sampling.distLeading = [0, 0] ∧ Gen.Sampling.distIsCumsumOfNorms = true
+      ∧ Gen.Sampling.freshLhsIsCounter = true ∧ Gen.Sampling.freshRhsIsLoopVar = true ∧ Gen.Sampling.freshRangeOp = "Sub"
+      ∧ Gen.Sampling.freshRangeLenOf = "new_dist" ∧ 0 ≤ Gen.Sampling.freshRangeK ∧ Gen.Sampling.advanceAfterNewIds = true
+      ∧ Gen.Sampling.rowsZip.length = 2 ∧ Gen.Sampling.rowsEnumerated = true ∧ Gen.Sampling.rowsNodeParent = true
+      ∧ Gen.Sampling.rowsValueIndexIsRowIndex = true ∧ Gen.Sampling.dedupColumn = "node_id"
+      ∧ Gen.Sampling.dedupInverted = true ∧ Gen.Sampling.idBaseIsPyInt = true then
+    pure { idBase := if Gen.Sampling.idBaseAgg = "max" then .maxId
+                     else if Gen.Sampling.idBaseColumn = "X.nodes.shape[0]" then .rowCount else .other,
+           idBasePlus := Gen.Sampling.idBasePlus, shortCmp := shortCmp, countFn := countFn,
+           freshMinus := Gen.Sampling.freshRangeK.toNat,
+           advance := if Gen.Sampling.advanceLenOf = "new_ids" then .newIds else .newDist,
+           first := Gen.Sampling.newIdsFirst, last := Gen.Sampling.newIdsLast, zipA := zipA, zipB := zipB, c0 := c0, c1 := c1,
+           rootRows := Gen.Sampling.rootRowsAdded, dedupFirst := Gen.Sampling.dedupKeep == "first" }
+  else none
+
+/-- The extracted rule is the one the model hard-wires: ids start at `int(node_id.max()) + 1`, a segment collapses when
+`dist[-1] < resample_to`, otherwise gets `np.round(dist[-1] / resample_to)` sample positions, `range(len(new_dist) - 2)`
+fresh ids between `seg[:1]` and `seg[-1:]`, the counter advances by `len(new_ids)`, rows are
+`zip(new_ids[:-1], new_ids[1:])`, root rows are appended and duplicates dropped keeping the first occurrence. -/
+theorem gen_res_rule : genResRule = some resRule0 := by decide
+
+/-- **The segment loop of `resample_skeleton` as written today is the model `resampleStruct`**, and its per-segment
+count function is `cntOf`. -/
+theorem gen_resample_is_model (t : Table) (cnt : List Int → Option Nat) (len : Int → Int → Nat) (res : Rat) :
+    genResRule.map (fun r => resampleStructG r t cnt) = some (resampleStruct t cnt)
+    ∧ genResRule.map (fun r => cntG r len res) = some (cntOf len res) := by
+  rw [gen_res_rule, Option.map_some, Option.map_some, resampleStructG_rule0, cntG_rule0]
+  exact ⟨rfl, rfl⟩
+
+/-- The glue around the loop: defaults, `map_units(resample_to, on_error='raise')`, copy unless `inplace`, non-skeletons
+rejected, the numeric columns, `interp1d(dist, …, kind=method)` for numeric and `kind='nearest'` for categorical columns
+evaluated at the `linspace` positions, the cubic clause of the collapse test, the `skip_errors` fall-back (the original
+rows of `seg[:-1]`, counter untouched, `continue`; otherwise re-raise), caches cleared at the end. -/
+theorem gen_resample_glue :
+    (∀ d ∈ [("inplace", "False"), ("method", "'linear'"), ("map_columns", "None"), ("skip_errors", "True")], d ∈ Gen.Sampling.rsDefaults)
+    ∧ "map_neuronlist" ∈ Gen.Sampling.rsDecorators
+    ∧ Gen.Sampling.rsMapUnitsArg = true ∧ Gen.Sampling.rsMapUnitsOnError = "raise"
+    ∧ Gen.Sampling.rsCopiesUnlessInplace = true ∧ Gen.Sampling.rsTypeGuardRaises = true
+    ∧ Gen.Sampling.rsNumCols = ["x", "y", "z", "radius"]
+    ∧ Gen.Sampling.interp = [("dist", "'nearest'"), ("dist", "method")]
+    ∧ Gen.Sampling.interpLoops = [("cat", "'nearest'"), ("num", "method")]
+    ∧ Gen.Sampling.sampledAtNewDist = true
+    ∧ Gen.Sampling.shortOther = ["method == 'cubic' and len(seg) <= 3"]
+    ∧ Gen.Sampling.collapseIdx = [0, -1, 0]
+    ∧ Gen.Sampling.skipCatches = "ValueError" ∧ Gen.Sampling.skipContinues = true ∧ Gen.Sampling.skipElseRaises = true
+    ∧ Gen.Sampling.skipRowsColumn = "node_id" ∧ Gen.Sampling.skipRowsSlice = (none, some (-1)) ∧ Gen.Sampling.skipAdvancesCounter = false
+    ∧ Gen.Sampling.rsClearsCache = true := by decide
+
+def guardOf (blocks : List (String × String × Nat × Nat × Bool × Bool × Bool × Bool)) (kind prev : String) : Guard :=
+  if blocks.any (fun b => b.1 == kind) then .always
+  else if blocks.any (fun b => b.1 == prev && b.2.2.2.1 > 0) then .unlessPrev
+  else .never
+
+/-- The re-attachment rule read off `resample_skeleton`: which of the three blocks are top-level `if`s (a block that
+only occurs nested in the previous block's `else` is an `elif`), where the KD-tree and the query positions come from. -/
+def genAttachRule : Option AttachRule :=
+  let bs := Gen.Sampling.attachBlocks
+  if Gen.Sampling.treeAfterDedup = true ∧ Gen.Sampling.treeColumns = ["x", "y", "z"] ∧ Gen.Sampling.oldIndexColumn = "node_id"
+      ∧ Gen.Sampling.oldIndexBeforeAssign = true
+      ∧ bs.all (fun b => b.2.2.1 == 1 && b.2.2.2.2.2.1 && b.2.2.2.2.2.2.1 && b.2.2.2.2.2.2.2) = true then
+    some { soma := guardOf bs "soma" "", conn := guardOf bs "connectors" "soma", tags := guardOf bs "tags" "connectors",
+           treeFromNew := Gen.Sampling.treeFromNew, posFromOld := bs.all (fun b => b.2.2.2.2.1),
+           somaElseClears := Gen.Sampling.somaElseClears }
+  else none
+
+/-- Three independent top-level blocks (soma, connectors, tags), one tree query each, the tree built from the new node
+table after the de-duplication, positions read from the old table, results indexing the new ids, all before the new
+table is assigned to the neuron. -/
+theorem gen_attach_rule : genAttachRule = some attachRule0 := by decide
+
+/-- **The re-attachment as written today maps every soma, every connector and every tagged node to the nearest new
+node** (`remap0`), each block independently of the other two. -/
+theorem gen_reattach_is_model (old new : List (Int × Pt)) (a : Attach) :
+    genAttachRule.map (fun r => reattachG r old new a) =
+      some { soma := a.soma.map (·.map (remap0 old new)), conn := a.conn.map (·.map (remap0 old new)),
+             tags := a.tags.map (·.map fun e => (e.1, e.2.map (remap0 old new))) } := by
+  rw [gen_attach_rule, Option.map_some, reattachG_rule0]
+
+/-- `TreeNeuron.downsample` / `.resample` call the functions above with their arguments forwarded; `.simple` is
+`downsample(float('inf'))`. -/
+theorem gen_methods :
+    ("downsample", "downsample_neuron", ["factor", "inplace"], ["**kwargs", "factor", "inplace=True"], [("factor", "5"), ("inplace", "False")]) ∈ Gen.Sampling.methods
+    ∧ ("resample", "resample_skeleton", ["resample_to", "inplace"], ["inplace=True", "resample_to"], [("inplace", "False")]) ∈ Gen.Sampling.methods
+    ∧ ("simple", "downsample", [], ["float('inf')", "inplace=True"], []) ∈ Gen.Sampling.methods := by decide
+
+/-! ## 2. Downsampling: float factors, inherited root paths -/
+
+/-- A float factor `q` drops at most `⌈q⌉` nodes between a kept node and its new parent (the loop test is `i < q` on an
+integer counter) — for a non-integer factor this is one more than `factor` itself. -/
+theorem downsample_gap_le_ceil_factor (t : Table) (hw : WF t) (hl : labelsOKB t = true) (q : Rat)
+    (pres : Option (List Int)) (soma : List Int) (hs : ∀ s ∈ soma, s ∈ ids t) (m : Node)
+    (hm : m ∈ downsampleG walkRule0 t (some q) pres soma) (hp : 0 ≤ m.parent) :
+    m.parent ∈ (rootPath t m.id).tail ∧ (rootPath t m.id).tail.idxOf m.parent ≤ ceilNat q := by
+  rw [downsampleG_rule0 hw (some q) pres soma hs] at hm
+  exact downsample_gap_le_factor t hw hl (ceilNat q) _ m hm hp
+
+/-- **Branching structure unchanged, full strength**: the root path of every kept node in the result is its old root
+path restricted to the kept nodes. -/
+theorem downsample_root_paths_inherited (t : Table) (hw : WF t) (hl : labelsOKB t = true) (f : Option Nat)
+    (pres : List Int) (i : Int) (hi : i ∈ ids (downsample t f pres)) :
+    rootPath (downsample t f pres) i = (rootPath t i).filter (fun a => (ids (downsample t f pres)).contains a) :=
+  rootPath_contract hw (WF_downsample hw f pres) (downsample_contracts hw hl f pres) _ i hi (le_refl _)
+
+/-- Hence the ancestor relation among kept nodes is exactly the old one: no branch is re-attached elsewhere, no two
+branches are merged or swapped. -/
+theorem downsample_ancestry_unchanged (t : Table) (hw : WF t) (hl : labelsOKB t = true) (f : Option Nat)
+    (pres : List Int) (a d : Int) (ha : a ∈ ids (downsample t f pres)) (hd : d ∈ ids (downsample t f pres)) :
+    a ∈ rootPath (downsample t f pres) d ↔ a ∈ rootPath t d := by
+  rw [downsample_root_paths_inherited t hw hl f pres d hd, List.mem_filter]
+  constructor
+  · exact fun h => h.1
+  · exact fun h => ⟨h, by simpa using ha⟩
+
+/-! ## 3. Resampling: re-attachment of soma, connectors and tags -/
+
+/-- The checker evaluated on navis' own output decides the clause "re-attaches soma, connectors and tags to the nearest
+new node" (`AttachSpec`: shapes kept, every entry at minimal distance). -/
+theorem attachCheck_sound (old new : List (Int × Pt)) (a b : Attach) (h : attachOKB old new a b = true) :
+    AttachSpec old new a b := attachOKB_sound' h
+
+/-- **All three re-attachments pick a nearest new node**: for the as-written model with today's rule, whenever the
+new table is non-empty with unique ids and every attached id has an old position. -/
+theorem reattach_all_nearest (old new : List (Int × Pt)) (hnd : (new.map (·.1)).Nodup) (hne : new ≠ []) (a : Attach)
+    (hloc : a.located old) : AttachSpec old new a (reattachG attachRule0 old new a) :=
+  attachOKB_sound' (attachOKB_reattach hnd hne a hloc)
+
+/-- Each single id: `remap0` returns the id of a node of the new table that minimises the distance to the old position
+(this ties `nearest_is_argmin` to the three blocks). -/
+theorem reattach_id_is_argmin (old new : List (Int × Pt)) (i : Int) (q : Pt) (hq : posOf old i = some q) (hne : new ≠ []) :
+    ∃ n ∈ new, n.1 = remap0 old new i ∧ ∀ n' ∈ new, sqd n.2 q ≤ sqd n'.2 q := remap0_nearest hq hne
+
+/-! ## 4. Resampling: radius, mapped numeric columns, categorical columns -/
+
+/-- **One bracket and one parameter for all columns**: x, y, z and the radius of a sampled point are each the
+1-d interpolation `interpCol` of that column over the arc lengths — with the same knot pair and the same `τ ∈ [0, 1]`
+(`locate`), which is also how any further numeric column passed in `map_columns` is computed. -/
+theorem resample_columns_same_parameter (ks : List (Rat × Pt)) (s : Rat) :
+    (polyAt ks s).x = interpCol (ks.map (·.1)) (ks.map (·.2.x)) s ∧
+    (polyAt ks s).y = interpCol (ks.map (·.1)) (ks.map (·.2.y)) s ∧
+    (polyAt ks s).z = interpCol (ks.map (·.1)) (ks.map (·.2.z)) s ∧
+    (polyAt ks s).r = interpCol (ks.map (·.1)) (ks.map (·.2.r)) s ∧
+    0 ≤ (locate (ks.map (·.1)) s).2 ∧ (locate (ks.map (·.1)) s).2 ≤ 1 :=
+  ⟨(interpCol_x ks s).symm, (interpCol_y ks s).symm, (interpCol_z ks s).symm, (interpCol_r ks s).symm,
+   locate_range _ s⟩
+
+/-- A mapped numeric column never leaves the interval spanned by the two original values it is interpolated from. -/
+theorem resample_column_between (ds vs : List Rat) (s : Rat) :
+    (vs.getD (locate ds s).1 0 ≤ interpCol ds vs s ∧ interpCol ds vs s ≤ vs.getD ((locate ds s).1 + 1) 0) ∨
+    (vs.getD ((locate ds s).1 + 1) 0 ≤ interpCol ds vs s ∧ interpCol ds vs s ≤ vs.getD (locate ds s).1 0) :=
+  interpCol_between ds vs s
+
+/-- **Categorical columns take the value of a nearest original node of the segment** (`kind='nearest'`): the picked
+knot is at minimal arc distance from the sample position, exactly half-way the lower knot wins, and the value is an
+original one (the code ↔ category translation is the identity). -/
+theorem resample_categorical_nearest {α} [BEq α] [LawfulBEq α] [Inhabited α] (ds : List Rat) (hs : ds.Pairwise (· ≤ ·))
+    (vs : List α) (hlen : vs.length = ds.length) (hne : ds ≠ []) (s : Rat) :
+    ∃ h : nearestIdx ds s < vs.length, catCol ds vs s = vs[nearestIdx ds s] ∧
+      ∀ d ∈ ds, (ds.getD (nearestIdx ds s) 0 - s) * (ds.getD (nearestIdx ds s) 0 - s) ≤ (d - s) * (d - s) := by
+  have h : nearestIdx ds s < vs.length := hlen ▸ nearestIdx_lt ds s hne
+  exact ⟨h, catCol_eq ds vs s h, nearestIdx_spec ds s hs⟩
+
+/-! ## 5. Resampling never increases cable length — over ℝ, exact (irrational) edge lengths -/
+open Navis.ResampleR in
+/-- **Full strength**: for every polyline `pts` in a real normed space (ℝ³ with the Euclidean norm in particular),
+with its exact arc lengths `dist pᵢ pᵢ₊₁`, the chain through the `k + 2` points sampled by arc-length linear
+interpolation at `np.linspace(0, L, k + 2)` is at most `L = length of pts` long; the first sample is the first point. -/
+theorem resample_not_longer_real {E : Type*} [NormedAddCommGroup E] [NormedSpace ℝ E] (pts : List E) (k : ℕ) :
+    chainLenR (samplesR (knotsR 0 pts) (chainLenR pts) k) ≤ chainLenR pts ∧
+    ∀ p ps, pts = p :: ps → polyAtR (knotsR 0 pts) 0 = p :=
+  ⟨resample_segment_not_longer pts k, fun p ps h => h ▸ polyAtR_knotsR_zero p ps⟩
+
+open Navis.ResampleR in
+/-- … and summed over all small segments of a skeleton, with any number of interior nodes per segment. -/
+theorem resample_total_not_longer_real {E : Type*} [NormedAddCommGroup E] [NormedSpace ℝ E] (segs : List (List E))
+    (kOf : List E → ℕ) :
+    (segs.map fun pts => chainLenR (samplesR (knotsR 0 pts) (chainLenR pts) (kOf pts))).sum ≤ (segs.map chainLenR).sum :=
+  resample_skeleton_not_longer segs kOf
+
+open Navis.ResampleR in
+/-- The sampling map is 1-Lipschitz in the arc-length parameter: two samples are never further apart than the piece
+of cable between them (the real-valued form of `resample_chord_le_arc`). -/
+theorem resample_chord_le_arc_real {E : Type*} [NormedAddCommGroup E] [NormedSpace ℝ E] (pts : List E) (s s' : ℝ)
+    (h : s ≤ s') : ‖polyAtR (knotsR 0 pts) s' - polyAtR (knotsR 0 pts) s‖ ≤ s' - s :=
+  norm_polyAtR_sub_le _ (knotsR_arcOK 0 pts) s s' h
+
+open Navis.ResampleR in
+/-- **The real model is the executable model on rational data**: in Euclidean 3-space, interpolating cast knots at a cast
+position gives the cast of `polyAt` (the function the harness compares with navis' output), the sample lists correspond,
+and the real chain length of cast points is the chain length used in `resample_not_longer`. -/
+theorem resample_real_model_is_executable_model (ks : List (Rat × Pt)) (s total : Rat) (k : ℕ) (l : List Pt) :
+    polyAtR (ks.map castK) (s : ℝ) = toE (polyAt ks s) ∧
+    samplesR (ks.map castK) (total : ℝ) k = (samples ks total k).map toE ∧
+    chainLenR (l.map toE) = chainLen l :=
+  ⟨polyAtR_cast ks s, samplesR_cast ks total k, chainLenR_map_toE l⟩
+
+/-! ## 6. Resampling preserves the branching structure -/
+
+/-- **Branching structure unchanged by resampling, full strength**: every root, leaf and branch point of `t` has exactly
+as many children in the resampled table as in `t` (one chain per small segment ending in it), and every fresh node has
+exactly one child — so the roots, tips and forks of the result are those of `t` and everything in between is a chain. -/
+theorem resample_branching_unchanged (t : Table) (hw : WF t) (cnt : List Int → Option Nat) :
+    (∀ n ∈ t, (n.parent < 0 ∨ childCount t n.id ≠ 1) → childCount (resampleStruct t cnt) n.id = childCount t n.id) ∧
+    (∀ o ∈ planOf t cnt, ∀ i ∈ fresh o.base o.k, childCount (resampleStruct t cnt) i = 1) :=
+  ⟨fun _ hn ha => childCount_resample_anchor hw cnt hn ha, fun _ ho _ hi => childCount_resample_fresh hw cnt ho hi⟩
+
+/-- The children of a root or branch point are counted by the small segments ending in it (what both sides of
+`resample_branching_unchanged` are compared through). -/
+theorem children_are_segment_ends (t : Table) (hw : WF t) (a : Int) (ha0 : 0 ≤ a) (ha : isBranchOrRoot t a = true) :
+    childCount t a = ((smallSegments t).map segLast).count a := childCount_eq_count_last hw ha0 ha
+
+/-! ## 7. Resampling after an arbitrary history -/
+
+/-- **The structural resampling clauses hold after every history** of catalogue operations: the result is a
+well-formed, correctly labelled forest, every root / leaf / branch point of the current skeleton keeps id and
+coordinates and its number of children, and the ids are the kept anchors plus fresh ids above every current id,
+without duplicates. -/
+theorem resample_spec_after_history (len : Int → Int → Nat) (t : Table) (hw : WF t) (hl : labelsOKB t = true)
+    (ops : List OpAll) (hok : ∀ op ∈ ops, op.ok) (cnt : List Int → Option Nat) :
+    let u := ops.foldl (applyAll len) t
+    WF (resampleStruct u cnt) ∧ labelsOKB (resampleStruct u cnt) = true ∧
+    (∀ n ∈ u, (n.parent < 0 ∨ childCount u n.id ≠ 1) →
+      ∃ m ∈ resampleStruct u cnt, m.id = n.id ∧ m.x = n.x ∧ m.y = n.y ∧ m.z = n.z) ∧
+    (ids (resampleStruct u cnt)).Nodup ∧
+    (∀ o ∈ planOf u cnt, ∀ i ∈ fresh o.base o.k, ∀ j ∈ ids u, j < i) ∧
+    (∀ n ∈ u, (n.parent < 0 ∨ childCount u n.id ≠ 1) → childCount (resampleStruct u cnt) n.id = childCount u n.id) := by
+  intro u
+  obtain ⟨hwu, _⟩ := Navis.Props.C01.opsAll_labels_ok len t hw hl ops hok
+  obtain ⟨h1, h2⟩ := resample_WF u hwu cnt
+  obtain ⟨_, h4, h5, _⟩ := resample_ids_fresh_unique u hwu cnt
+  exact ⟨h1, h2, fun n hn ha => resample_keeps_anchors u hwu cnt n hn ha, h4, h5,
+    (resample_branching_unchanged u hwu cnt).1⟩
+
 /-! ## Non-vacuity: concrete inputs meeting the hypotheses -/
 
 /-- root 1 — 2 — 3 (branch) with tips 4 and 5–6–7–8, plus an isolated root 9; all edges have length 3 or 4. -/
@@ -380,5 +734,23 @@ example : LensOK [⟨6, 0, 0, 1⟩, ⟨3, 0, 0, 2⟩, ⟨0, 0, 0, 4⟩] [3, 3] :
 example : interiorPts (knots 0 [⟨6, 0, 0, 1⟩, ⟨3, 0, 0, 2⟩, ⟨0, 0, 0, 4⟩] [3, 3]) 6 1 = [⟨3, 0, 0, 2⟩] := by
   decide +kernel
 example : nearest [(1, ⟨0, 0, 0, 0⟩), (2, ⟨10, 0, 0, 0⟩), (3, ⟨4, 0, 0, 0⟩)] ⟨6, 0, 0, 0⟩ = some 3 := by decide +kernel
+
+-- second pass
+example : downsampleG walkRule0 ex (some (5 / 2)) none [6] = downsample ex (some 3) [6] := by decide +kernel
+example : (downsampleG walkRule0 ex (some (5 / 2)) none [6]).map (fun n => (n.id, n.parent)) =
+    [(1, -1), (3, 1), (4, 3), (6, 3), (8, 6), (9, -1)] := by decide +kernel
+example : downsampleNeuronG .le 1 walkRule0 ex (some 1) none [] = none := by decide +kernel
+example : rootPath (downsample ex (some 2) []) 8 = [8, 5, 3, 1] ∧ rootPath ex 8 = [8, 7, 6, 5, 3, 2, 1] := by decide +kernel
+example : resampleStructG resRule0 ex (cntOf (coordLen ex) 2) = resampleStruct ex (cntOf (coordLen ex) 2) := by decide +kernel
+example : childCount (resampleStruct ex (cntOf (coordLen ex) 2)) 3 = 2 ∧ childCount ex 3 = 2 := by decide +kernel
+-- soma on node 2, connectors on 2 and 3, a tag on 1; new table = nodes 1 and 3: node 2 is half-way (tie: the first wins)
+example : reattachG attachRule0 [(1, ⟨0, 0, 0, 0⟩), (2, ⟨3, 0, 0, 0⟩), (3, ⟨6, 0, 0, 0⟩)] [(3, ⟨6, 0, 0, 0⟩), (1, ⟨0, 0, 0, 0⟩)]
+    ⟨some [2], some [2, 3], some [("a", [1])]⟩ = ⟨some [3], some [3, 3], some [("a", [1])]⟩ := by decide +kernel
+example : attachOKB [(1, ⟨0, 0, 0, 0⟩), (2, ⟨3, 0, 0, 0⟩), (3, ⟨6, 0, 0, 0⟩)] [(3, ⟨6, 0, 0, 0⟩), (1, ⟨0, 0, 0, 0⟩)]
+    ⟨some [2], some [2, 3], none⟩ ⟨some [1], some [3, 3], none⟩ = true := by decide +kernel
+example : attachOKB [(1, ⟨0, 0, 0, 0⟩), (2, ⟨4, 0, 0, 0⟩), (3, ⟨6, 0, 0, 0⟩)] [(3, ⟨6, 0, 0, 0⟩), (1, ⟨0, 0, 0, 0⟩)]
+    ⟨some [2], none, none⟩ ⟨some [1], none, none⟩ = false := by decide +kernel
+example : interpCol [0, 3, 6] [1, 2, 4] 5 = 10 / 3 ∧ nearestIdx [0, 3, 6] (3 / 2) = 0 ∧ nearestIdx [0, 3, 6] 2 = 1 := by decide +kernel
+example : catCol [0, 3, 6] ["ax", "de", "ax"] 4 = "de" ∧ catCol [0, 3, 6] ["ax", "de", "ax"] 5 = "ax" := by decide +kernel
 
 end Navis.Props.C13
